@@ -63,3 +63,25 @@ PROPS["C16"] = dict(
     assumptions=["duplicate positions are not generated (their meaning is undocumented)",
                  "matrices whose exact LU meets a zero pivot are discarded (counted)"],
 )
+
+PROPS["C15"] = dict(
+    harness="c15_objects", flavour="asan",
+    quick=dict(workers=8, cases=40000, min_nontrivial=500),
+    thorough=dict(workers=16, cases=3000000, min_nontrivial=5000, budget_s=3000),
+    rule="Stateful/model-based: command histories (length 0-30, whole-sequence shrinking) over a pool of 4 slots of one "
+         "class out of Vector, SparseMatrixCOO, SparseMatrixCSR, SparseLUSolver, SymmetricTridiagonalSolver (cyclic and "
+         "not), DiagonalSolver; commands construct / default-construct / set entry / solve / copy-construct / copy-assign "
+         "(equal or different size) / move-construct / move-assign / self-assign / destroy. After every command every "
+         "live, not moved-from object is compared with a value-semantics model (sizes and entries bitwise; solver objects "
+         "after their first solve only through solve results against a dense long double reference). Non-trivial: the "
+         "history contains a copy or move taken after the source acquired state (a solve for solver classes, any "
+         "content for containers) and a later observation. Distinct: class + sequence of applied command kinds.",
+    technique="stateful property-based testing (rapidcheck command sequences) against a value-semantics reference model, under ASan/UBSan",
+    level_text="Model-based exploration of operation histories: the real objects and a trivially correct value model are "
+               "driven by the same generated command sequence and compared after every step; ASan/UBSan watch the "
+               "special member functions. Exploration of tens of thousands of histories per run, not a proof.",
+    level_note="Trusted: the model structs in harness/common/objects_case.h. Moved-from objects are only destroyed or "
+               "assigned to (anything else is unspecified by the code).",
+    assumptions=["moved-from objects are only destroyed or assigned to",
+                 "entry writes to a tridiagonal solver after its first solve are not generated (stored data are factors)"],
+)
